@@ -93,15 +93,20 @@ def audit_files():
 # ---------------------------------------------------------------------------
 
 def scenario_plan(ctx):
-    """(n_sol, n_inert, background) per scenario; covers 1..5 classes, pure-inert, mixed, background on/off"""
+    """(n_sol, n_inert, background, strip) per scenario; covers 1..5 classes, pure-inert, mixed, background on/off,
+    and — in EVERY run — scenarios whose first soluble class lists a tracked compound it is released without
+    (m0[j] == 0: it strips that gas from the plume water), alone and mixed with classes that dissolve the compound"""
     base = [(1, 0, False), (1, 1, True), (2, 1, False), (0, 1, False), (3, 2, True)]
     extra = [(2, 0, True), (1, 2, False), (2, 2, True), (1, 3, True), (3, 1, False), (0, 2, True), (1, 0, True),
              (2, 3, False), (4, 1, True), (1, 4, False)]
     r = ctx.rng
     if ctx.thorough:
-        plan = base + extra
+        plan = [t + (None,) for t in base + extra]
+        plan += [(1, 0, True, 'alone'), (1, 2, True, 'alone'), (2, 0, True, 'mixed'), (3, 1, True, 'mixed'),
+                 (2, 1, False, 'mixed')]
     else:
-        plan = [base[0], base[1], base[4], r.choice([base[2], base[3]] + extra)]
+        plan = [t + (None,) for t in (base[0], base[1], base[4], r.choice([base[2], base[3]] + extra))]
+        plan += [(1, r.choice([0, 1]), True, 'alone'), (r.choice([2, 3]), r.choice([0, 1]), True, 'mixed')]
     return plan
 
 
@@ -163,6 +168,13 @@ def make_cases(ctx, sc, sim, n):
         else:
             k = r.choice(good)
             yi_state = S.perturb_inner(r, sc, yis[k], strength=r.choice([0., 0.3, 1., 1.]))
+            strip = sc.spec.get('strip')
+            if strip:
+                # the plume water holds the compounds the stripping class was released without
+                for j in strip['zero']:
+                    jj = len(yi_state) - nchems + j
+                    if not yi_state[jj] > 0.:
+                        yi_state[jj] = 10 ** r.uniform(-6, -3) * yi_state[0]
             z = float(zi[k]) if r.random() < 0.6 else r.uniform(0.02, 0.98) * H
             if u < 0.70:
                 case.update({'kind': 'outer-arbitrary', 'z': z, 'yi': yi_state,
@@ -421,6 +433,31 @@ def inner_absent_predicates(pv, nchems, orc, ro):
     return out
 
 
+def closures_finite(rec):
+    """are the closure values the exchange equations take as input finite?  (alpha_s, Ep, Xi, Fb of the inner plume; the
+    dbm properties of every particle)"""
+    vals = list(rec['inner'][6:10])
+    for q in rec['particles']:
+        vals += list(q['scal']) + list(q['beta']) + list(q['Cs'])
+    return all(math.isfinite(v) for v in vals)
+
+
+def stripping_active(sc, rec, orc):
+    """does some soluble class list a tracked compound j it was released without (m0_j == 0) while the inner plume water
+    holds j and the class exchanges it?  returns False | 'water' | 'background' (ambient holds j too)"""
+    out = False
+    for pt, q in zip(sc.particles, rec['particles']):
+        if q['scal'][0] < 0.5 or not q['scal'][1] > 0:
+            continue
+        m0 = np.asarray(pt.m0, dtype=float)
+        for j in range(min(len(m0), len(rec['inner_c']), len(q['beta']))):
+            if m0[j] == 0. and rec['inner_c'][j] > 0. and q['beta'][j] > 0.:
+                if j < len(orc['ca']) and orc['ca'][j] > 0.:
+                    return 'background'
+                out = 'water'
+    return out
+
+
 def in_domain(nchems, rec, with_particles=True):
     """the domain in which Lean's totalised operations coincide with the code's: list lengths, u+us != 0, M_j != 0"""
     if not (len(rec['inner_c']) == nchems and len(rec['outer_c']) == nchems and len(rec['outer_ca']) == nchems):
@@ -556,16 +593,20 @@ def probe_heterogeneous(ctx):
 def run(ctx, lean_ok):
     r = ctx.rng
     plan = scenario_plan(ctx)
-    per_scen = ctx.n(240, 1500)
+    per_scen = ctx.n(200, 1200)
     records = []          # (sc, case, res)
     seen = set()
     nsim_ok = 0
+    nclosure_nan = 0
     done = {k: 0 for k in KINDS}
-    for si, (n_sol, n_inert, bg) in enumerate(plan):
-        spec = S.random_spec(r, n_sol, n_inert, bg)
+    nstrip = {'all': 0, 'alone': 0, 'mixed': 0, 'outer present': 0, 'outer absent': 0, 'background': 0}
+    for si, (n_sol, n_inert, bg, strip) in enumerate(plan):
+        spec = S.random_spec(r, n_sol, n_inert, bg, strip=strip)
         sc = S.build(spec)
         ctx.count('scenario particles=%d' % (n_sol + n_inert))
         ctx.count('scenario background=%s' % bg)
+        if strip:
+            ctx.count('scenario with a class released without a listed compound: %s' % strip)
         sim = None
         for attempt in range(3):
             try:
@@ -574,7 +615,7 @@ def run(ctx, lean_ok):
                 break
             except Exception as e:       # a scenario the real model cannot integrate (C20's subject): draw another
                 ctx.count('scenario-simulation-failed:%s' % raise_site(e))
-                spec = S.random_spec(r, n_sol, n_inert, bg)
+                spec = S.random_spec(r, n_sol, n_inert, bg, strip=strip)
                 sc = S.build(spec)
         if sim is None:
             z0, y0 = S.initial_inner_state(sc)
@@ -603,6 +644,13 @@ def run(ctx, lean_ok):
             vecs = [v for v in (res['ri'], res['ro']) if v is not None]
             finite = all(bool(np.all(np.isfinite(v))) for v in vecs)
             res['finite'] = finite
+            if not finite and not closures_finite(res['recB']):
+                # the NaN comes from a closure the exchange equations take as input (dbm particle properties, peeling,
+                # void fraction — e.g. dbm returns us = nan for a fluid particle denser than the seawater): the state is
+                # outside the domain of those closures, not a statement about the exchange terms; counted and bounded
+                nclosure_nan += 1
+                ctx.count('closure value non-finite (outside the domain of dbm / cp_model), state skipped')
+                continue
             if not finite:
                 ctx.count('non-finite vector')
                 ctx.violation('non-finite-derivative', 'smp.derivs_inner / smp.derivs_outer returns inf/nan on a valid state pair',
@@ -623,6 +671,16 @@ def run(ctx, lean_ok):
                 ctx.count('ambient background concentration non-zero')
             if any(c != 0 for c in rb['outer_c']) and res['y_o'][0] < 0:
                 ctx.count('outer plume carries dissolved compounds')
+            sa = stripping_active(sc, rb, res['oracle'])
+            res['strip'] = sa
+            if sa and not kind.startswith('inner-absent'):
+                mode = sc.spec.get('strip', {}).get('mode', 'unplanned')
+                nstrip['all'] += 1
+                nstrip[mode] = nstrip.get(mode, 0) + 1
+                nstrip['outer present' if res['y_o'][0] < 0 else 'outer absent'] += 1
+                if sa == 'background':
+                    nstrip['background'] += 1
+                ctx.count('stripping state (class with m0_j = 0, water holds compound j): %s, %s' % (mode, 'outer present' if res['y_o'][0] < 0 else 'outer absent'))
             res['in_domain'] = in_domain(len(sc.chem_names), rb, with_particles=not kind.startswith('inner-absent'))
             if not res['in_domain']:
                 ctx.count('outside the domain of the theorems (list lengths, u+us=0, M=0)')
@@ -644,6 +702,15 @@ def run(ctx, lean_ok):
                not short, 'below the floor (done, floor): %r' % short)
     ctx.oblige('at least half of the %d scenarios were integrated by the real model' % len(plan),
                2 * nsim_ok >= len(plan), '%d of %d' % (nsim_ok, len(plan)))
+    ctx.oblige('at most 2%% of the generated state pairs skipped because a closure input (particle properties, Ep, Xi, Fb, alpha_s) '
+               'is non-finite (%d generated)' % ctx.evaluations, nclosure_nan <= 0.02 * max(ctx.evaluations, 1), '%d skipped' % nclosure_nan)
+    ntot = len(records)
+    need = {'all': 0.15, 'background': 0.10, 'alone': 0.04, 'mixed': 0.04, 'outer present': 0.04, 'outer absent': 0.03}
+    low = {k: (nstrip[k], int(math.ceil(f * ntot))) for k, f in need.items() if nstrip[k] < f * ntot}
+    ctx.oblige('floor: >= 15%% of the completed state pairs have a soluble class whose composition lists a tracked compound it was '
+               'released without (m0_j = 0, diss_indices_j False) while the inner plume water holds that compound and the class '
+               'exchanges it (beta_j > 0, A > 0); >= 10%% also with ambient background; alone >= 4%%, mixed >= 4%%, outer present '
+               '>= 4%%, outer absent >= 3%% (of %d)' % ntot, ntot > 0 and not low, 'below (have, need): %r' % low)
     nout = sum(1 for _s, _c, res in records if not res['in_domain'])
     ctx.oblige('every completed state pair lies in the domain where the totalised model operations coincide with the code '
                '(list lengths = nchems, u+us != 0, M_j != 0)', nout == 0, '%d outside' % nout)
